@@ -61,7 +61,7 @@ def check(run, replay=None):
     tpath = run.path("trace.ndjson")
     mode = {"C13": "c13", "C14": "c14", "C15": "c15"}[prop]
     os.makedirs(run.path("w"), exist_ok=True)
-    run.sh([vh, "diff-drive", "-cases", cpath, "-out", tpath, "-swagger", swagger, "-work", run.path("w"),
+    drv = run.sh([vh, "diff-drive", "-cases", cpath, "-out", tpath, "-swagger", swagger, "-work", run.path("w"),
             "-mode", mode, "-seed", str(run.seed)], timeout=3000)
     trace = read_ndjson(tpath)
     rejects, tv = validate(run, prop, tpath, len(trace))
@@ -94,6 +94,7 @@ def check(run, replay=None):
                pipeline_mc=dict(states=mc["states"], transitions=mc["transitions"]),
                calibration_skipped=skipped, calibration_disagreements=sorted(set(disagree)),
                rejected_events=len(rejects), exhaustive=(len(cases) == gen["states"]))
+    cov["runaway"] = [l for l in drv.stderr.splitlines() if l.startswith("RUNAWAY")]
     if prop in ("C13",):
         import frame_family
         fv, fcov = frame_family.frame_stage(run); run.violations += fv; cov.update(fcov)
@@ -107,7 +108,7 @@ def check_c12(run, vh, swagger, mc):
     cases, gen = gen_cases(run, pairs=not quick)
     cpath = run.path("cases.ndjson"); write_ndjson(cpath, cases)
     t1 = run.path("trace1.ndjson")
-    run.sh([vh, "diff-drive", "-cases", cpath, "-out", t1, "-swagger", "" if quick else swagger, "-work", run.path("w"),
+    drv1 = run.sh([vh, "diff-drive", "-cases", cpath, "-out", t1, "-swagger", "" if quick else swagger, "-work", run.path("w"),
             "-mode", "c12"], timeout=3000)
     tr1 = read_ndjson(t1)
     rej1, tv1 = validate(run, "C12", t1, len(tr1))
@@ -123,7 +124,7 @@ def check_c12(run, vh, swagger, mc):
     cases2 = [e for t, e in g2["emitted"] if t == "CASE"]
     c2 = run.path("cases2.ndjson"); write_ndjson(c2, cases2)
     t2 = run.path("trace2.ndjson")
-    run.sh([vh, "diff-drive12", "-cases", c2, "-pool", pool, "-out", t2, "-swagger", swagger, "-work", run.path("w"),
+    drv2 = run.sh([vh, "diff-drive12", "-cases", c2, "-pool", pool, "-out", t2, "-swagger", swagger, "-work", run.path("w"),
             "-cli-every", "7" if quick else "3"], timeout=3000)
     tr2 = read_ndjson(t2)
     rej2, tv2 = validate(run, "C12", t2, len(tr2))
@@ -157,6 +158,7 @@ def check_c12(run, vh, swagger, mc):
                pool_size=n, pool_pairs=min(n, npair) ** 2,
                samples=[c["c"] for c in cases2[:2]] + [cases[0]["c"]],
                rejected_events=len(rej1) + len(rej2))
+    cov["runaway"] = [l for l in (drv1.stderr + drv2.stderr).splitlines() if l.startswith("RUNAWAY")]
     import frame_family
     fv, fcov = frame_family.frame_stage(run); run.violations += fv; cov.update(fcov)
     return finish(run, "model_checking", cov, ASSUME + ["validity of pool members is decided by go-openapi/validate (pinned dependency)"])
